@@ -140,6 +140,8 @@ func runGRPC(ctx context.Context, cc *grpc.ClientConn, s *Script, callID string)
 	var copts []grpc.CallOption
 	if s.Gzip {
 		copts = append(copts, grpc.UseCompressor(gzipenc.Name))
+	} else if s.Enc != "" {
+		copts = append(copts, grpc.UseCompressor(s.Enc))
 	}
 	if s.Shape == "unary" {
 		out := vschema.NewMsg(chunkMD)
@@ -360,6 +362,8 @@ func runWeb(ctx context.Context, hc *http.Client, base string, s *Script, callID
 	if s.Gzip {
 		req.Header.Set("Grpc-Encoding", "gzip")
 		req.Header.Set("Grpc-Accept-Encoding", "gzip")
+	} else if s.Enc != "" {
+		req.Header.Set("Grpc-Encoding", s.Enc)
 	}
 	req.Header.Set("X-Vf-Id", callID)
 	if s.MetaPlan {
